@@ -1457,3 +1457,72 @@ Proof.
   exfalso. apply Hne. pose proof (announce_plain_core rep s o H) as Hc. unfold core in Hc.
   inversion Hc. congruence.
 Qed.
+
+(** * A done state is frozen
+
+    Stronger than first-failure-kept and needing no reachability: in ANY done
+    state (success included) nothing but set_result, set_exception(override)
+    and the user's set_exception changes (status, exception, result). *)
+
+Lemma cs_done_frozen c s : done s = true -> replacer c = false -> core (cs_apply c s) = core s.
+Proof.
+  intros Hd Hr. destruct c; cbn [cs_apply replacer] in *; try discriminate;
+    unfold core; crush_state s; try reflexivity; cases st; fin.
+Qed.
+
+Lemma cs_run_done_frozen l : forall s, done s = true -> existsb replacer l = false ->
+  core (cs_run l s) = core s.
+Proof.
+  induction l as [|c l IH]; intros s Hd Hx; [reflexivity|].
+  cbn in Hx. apply orb_false_iff in Hx. destruct Hx as [Hc Hl].
+  change (cs_run (c :: l) s) with (cs_run l (cs_apply c s)).
+  rewrite IH; [now apply cs_done_frozen|now apply cs_done_mono|exact Hl].
+Qed.
+
+Lemma done_frozen_step E rep s o : done s = true ->
+  core (fst (step E rep s o)) <> core s ->
+  (exists r, o = OSetResult r) \/ (exists e, o = OSetException e true) \/
+  (((exists e, o = OUserSetException e) \/ is_announce_op o = true) /\
+   exists l e, fst (step E rep s o) = cs_run l s /\
+               Forall (fun c => allowed no_locks c = true) l /\ In (CsUserSetException e) l).
+Proof.
+  intros Hd Hne. destruct (step_cs E rep s o) as (l & Hl & F).
+  destruct (existsb replacer l) eqn:Hx.
+  2:{ exfalso. apply Hne. rewrite Hl. now apply cs_run_done_frozen. }
+  apply existsb_exists in Hx. destruct Hx as (c & Hin & Hc).
+  pose proof (proj1 (Forall_forall _ _) F c Hin) as Hoc.
+  destruct o; cbn [cs_of_op] in Hoc; try (subst c; cbn in Hc; try discriminate).
+  - left. eauto.
+  - destruct override; [|discriminate]. right. left. eauto.
+  - right. right. split; [now right|].
+    destruct c; cbn in Hc, Hoc; try discriminate; try (destruct ov; discriminate).
+    exists l, e. split; [exact Hl|]. split; [exact F|exact Hin].
+  - right. right. split; [now right|].
+    destruct c; cbn in Hc, Hoc; try discriminate; try (destruct ov; discriminate).
+    exists l, e. split; [exact Hl|]. split; [exact F|exact Hin].
+  - right. right. split; [now right|].
+    destruct c; cbn in Hc, Hoc; try discriminate; try (destruct ov; discriminate).
+    exists l, e. split; [exact Hl|]. split; [exact F|exact Hin].
+  - contradiction.
+  - destruct c0.
+    + exfalso. now apply Hne.
+    + exfalso. now apply Hne.
+    + exfalso. now apply Hne.
+    + right. right. split; [left; exists e; reflexivity|].
+      destruct c; cbn in Hc, Hoc; try discriminate; try (destruct ov; discriminate).
+      exists l, e0. split; [exact Hl|]. split; [exact F|exact Hin].
+    + exfalso. apply Hne. cbn. unfold do_cancel_cs. now rewrite Hd.
+Qed.
+
+Lemma done_frozen_run E rep ops s : done s = true ->
+  along (fun s0 o r s' => core s' <> core s0 ->
+           (exists v, o = OSetResult v) \/ (exists e, o = OSetException e true) \/
+           (((exists e, o = OUserSetException e) \/ is_announce_op o = true) /\
+            exists l e, s' = cs_run l s0 /\
+                        Forall (fun c => allowed no_locks c = true) l /\
+                        In (CsUserSetException e) l))
+        (run E rep s ops).
+Proof.
+  apply (run_Forall E rep (fun s => done s = true)); [apply step_done|].
+  intros s0 o Hd Hne. exact (done_frozen_step E rep s0 o Hd Hne).
+Qed.
